@@ -148,13 +148,18 @@ theorem no_timelock {cfg : Cfg} {s : State} (hr : ReachC cfg s) (hne : s.rt ≠ 
     ensemble task (watch streams, peering), every worker (hence every handler in flight), and every COOPERATIVE
     daemon the daemon killer has sent an exit stopper to (unless the killer itself crashed). Daemons that ignore
     their stopper, daemons spawned after the killer's `finally:`, and orphaned helper tasks may outlive the cleanup:
-    they are "hung tasks" (`no_daemon_alive_at_return`). -/
+    they are "hung tasks" (`no_daemon_alive_at_return`).
+    Last conjunct (since /repo 1d3a667 nothing is spawned after the daemon killer's sweep: `daemonSpawn` needs
+    `killed = false`): once the killer has swept, EVERY daemon that is still running has got an exit stopper — what runs
+    on is a daemon that ignores its stopper and that kopf abandons by design (deviation C20-D1), never one that nobody
+    asked to stop (the repaired C20-F9). -/
 theorem cleanup_last {cfg : Cfg} {s : State} (hr : Reach cfg s) (h : s.cleanupBegun = true) (hna : s.abandoned = false) :
     (∀ r, r ≠ .startupCleanup → (s.st (.root r)).ended = true) ∧ s.core.live = false
     ∧ (∀ i, i < s.nSubs → (s.st (.sub i)).live = false)
     ∧ (∀ w o, s.wk w ≠ some (o, .running))
     ∧ (s.st (.root .daemonKiller) ≠ .failed →
-        ∀ d, d < s.nDaemons → s.stopReq d = true → s.coop d = true → s.dm d = .ended) := by
+        ∀ d, d < s.nDaemons → s.stopReq d = true → s.coop d = true → s.dm d = .ended)
+    ∧ (s.killed = true → ∀ d, d < s.nDaemons → s.dm d = .running → s.stopReq d = true) := by
   have hB := InvB.reach hr
   have hC := InvC.reach hr
   have hE := InvE.reach (cfg := cfg) hr
@@ -167,7 +172,7 @@ theorem cleanup_last {cfg : Cfg} {s : State} (hr : Reach cfg s) (h : s.cleanupBe
       have := hB.subOrch i hi hl
       rw [TS.ended_not_active (h1 .orchestrator (by decide))] at this
       cases this
-  refine ⟨h1, h2, hsub, ?_, ?_⟩
+  refine ⟨h1, h2, hsub, ?_, ?_, hE.sweptReq⟩
   · intro w o hw
     cases o with
     | root r =>
